@@ -32,6 +32,39 @@ def classify(result, n, before, after):
     return None
 
 
+def doc_signatures(fn, name):
+    """argument-kind tuples of the overloads listed in a Boost.Python docstring (self dropped)"""
+    out = []
+    doc = getattr(fn, "__doc__", None) or ""
+    for line in doc.splitlines():
+        mm = re.match(r"\s*%s\(\s*(.*)\)\s*->" % re.escape(name), line)
+        if not mm:
+            continue
+        parts = [a.strip() for a in mm.group(1).replace("[", "").replace("]", "").split(",") if a.strip()]
+        kinds = []
+        ok = True
+        for a in parts[1:]:   # parts[0] is self
+            tm = re.match(r"\(([^)]*)\)", a)
+            if not tm:
+                ok = False
+                break
+            tn = tm.group(1).strip()
+            if tn in ARR:
+                kinds.append("arr:" + tn)
+            elif tn + "Array" in ARR:
+                kinds.append("elem:" + tn + "Array")
+            elif tn == "float":
+                kinds.append("py:float")
+            elif tn in ("int", "bool"):
+                kinds.append("py:int")
+            else:
+                ok = False
+                break
+        if ok and 1 <= len(kinds) <= 4 and tuple(kinds) not in out:
+            out.append(tuple(kinds))
+    return out
+
+
 def discover():
     entries = []
     arr_kinds = ["arr:" + c for c in ARR_NAMES]
@@ -50,6 +83,10 @@ def discover():
                 continue
             sigs = [()] + [(k,) for k in one_arg]
             sigs += [("arr:" + cls, "arr:" + cls), ("arr:" + cls, "py:float"), ("elem:" + cls, "elem:" + cls), ("elem:" + cls, "arr:" + cls), ("arr:" + cls, "elem:" + cls), ("arr:" + cls, "arr:FloatArray"), ("arr:" + cls, "arr:DoubleArray")]
+            # every overload the binding documents (Boost.Python docstring): argument types -> argument kinds
+            for dsig in doc_signatures(attr, m):
+                if dsig not in sigs:
+                    sigs.append(dsig)
             for sig in sigs:
                 subj, _ka = build_array(cls, N, 2, 3)
                 args = [build_arg(k, N, 3 + j, 4 + j)[0] for j, k in enumerate(sig)]
